@@ -29,7 +29,7 @@ for d in sys.argv[1:]:
     needs = (m.group(1).strip() if m else notes.strip())[:900]
     meta = {
         "id": sid,
-        "breaks_property": sid[:3],
+        "breaks_property": re.search(r"C\d\d", sid).group(0),
         "needs_to_manifest": needs,
         "confirmed": conf,
         "checks_run": sorted(runs),
